@@ -120,6 +120,10 @@ fn vrun(profile: &str, seed: u64, start: u64, count: u64, out: &str, verbose: bo
                 }
             }
         }
+        #[cfg(feature = "writers")]
+        if idx % 5 == 0 && run.end == exec::End::Ended && (profile == "c01" || profile == "general") {
+            vh::pipelines::check_run_and_exit(&case, tally, idx);
+        }
         // C08, differential clause: if nothing fails finally, a fail-fast run equals a normal run.
         // (Same seeds, same schedule; only cases without real-time delays are comparable event by event.)
         if case.cfg.fail_fast()
